@@ -115,3 +115,33 @@ pub fn brief(t: &T) -> String {
     rec(t, &mut s, &mut b);
     s
 }
+
+use bc_components::SymmetricKey;
+use crate::gen::{self, Gen, GenCfg, Route, M};
+use crate::rng::Rng;
+
+/// One random envelope of the universe: model + real envelope built through a random API route.
+pub fn universe(rng: &mut Rng, cfg: GenCfg, case: u64) -> (M, Envelope) {
+    let m = {
+        let mut g = Gen::new(rng, cfg, case);
+        g.top()
+    };
+    let route = if m.has_node_subject_node() { Route::Decode } else { *rng.pick(&[Route::Plain, Route::Shuffled, Route::ReplaceSubject, Route::Detour, Route::Decode]) };
+    let e = gen::build(&m, route, rng);
+    (m, e)
+}
+
+pub fn cfg_for(ctx: &Ctx, case: u64) -> GenCfg {
+    let mut cfg = match (ctx.tier, case % 3) {
+        (_, 0) => GenCfg::small(),
+        (crate::ctx::Tier::Quick, _) => GenCfg::medium(),
+        (crate::ctx::Tier::Thorough, 1) => GenCfg::medium(),
+        _ => GenCfg::large(),
+    };
+    cfg.markers = true;
+    cfg
+}
+
+pub fn fresh_key(rng: &mut Rng) -> SymmetricKey {
+    SymmetricKey::from_data_ref(rng.bytes(32)).unwrap()
+}
